@@ -121,7 +121,7 @@ func runC19(c *report.Ctx) {
 		k := 0
 		an.Instrs(f, func(in ssa.Instruction) {
 			call, ok := in.(*ssa.Call)
-			if !ok || call.Call.StaticCallee() == nil || an.FuncKey(call.Call.StaticCallee()) != "strings.Repeat" {
+			if !ok || call.Call.StaticCallee() == nil || an.CanonKeyOf(call.Call.StaticCallee()) != "strings.Repeat" {
 				return
 			}
 			cnt, ok := call.Call.Args[1].(*ssa.BinOp)
@@ -158,7 +158,7 @@ func runC19(c *report.Ctx) {
 						if !ok || tc.Call.StaticCallee() == nil || len(tc.Call.Args) == 0 {
 							return false
 						}
-						k := an.FuncKey(tc.Call.StaticCallee())
+						k := an.CanonKeyOf(tc.Call.StaticCallee())
 						if !strings.HasPrefix(k, "strings.Trim") {
 							return false
 						}
